@@ -67,6 +67,24 @@ package tree
 //@          : isDecimalLiteral(commandText) ? absval(v) == VNum(parseFloatVal(commandText))
 //@          : absval(v) == VStr(commandText))
 //
+// Command text is cut at single spaces only, and every non-empty piece becomes exactly one element, in order (C17):
+// CountFrom counts the non-empty members of strings.Split(str, " ") from index i on.
+//@ opaque pure func CountFrom(ws seq[string], i int) int {
+//@     return (i < 0 || i >= len(ws)) ? 0 : (ws[i] == "" ? 0 : 1) + CountFrom(ws, i + 1) }
+//@ func (cs *CommandStatement) split(str string) (elements []*CommandStatementElement)
+//@   ensures "one-element-per-word": len(elements) == CountFrom(splitOn(str, " "), 0)
+//@   ensures "elements-are-values": forall i int :: {elements[i]} 0 <= i && i < len(elements) ==>
+//@               elements[i] != nil && elements[i].Expression != nil && elements[i].Expression.Value != nil
+//@   ghost after call append#0 {
+//@       assert "kept": forall i int :: {callres[i]} 0 <= i && i < len(elements) ==> callres[i] == before(elements[i])
+//@       assert "added": len(callres) == len(elements) + 1 && callres[len(elements)] != nil && callres[len(elements)].Expression != nil &&
+//@                       callres[len(elements)].Expression.Value != nil
+//@   }
+//@   loop 0: invariant fresh(elements) && 0 <= rangeindex + 1 && rangeindex + 1 <= len(split) && seq(split) == splitOn(str, " ") &&
+//@           len(elements) + CountFrom(splitOn(str, " "), rangeindex + 1) == CountFrom(splitOn(str, " "), 0) &&
+//@           (forall i int :: {elements[i]} 0 <= i && i < len(elements) ==>
+//@               elements[i] != nil && elements[i].Expression != nil && elements[i].Expression.Value != nil)
+//
 // ---- creator.go: loading (C01, C05, C08) ---------------------------------------------------------------------
 //
 // Cparse (assumed; bounded stand-in B-parse / B-load): FromReader is the ANTLR lexer and parser plus
